@@ -425,6 +425,19 @@ impl<A: HApi> Sut for HSut<A> {
                 }
                 (m2, A::call(copy.bytes_mut(), &Op::new("size", &[])))
             });
+            let flags = guarded(|| {
+                let q = |n: &'static str, c: &mut ABuf| A::call(c.bytes_mut(), &Op::new(n, &[]));
+                let mut c2 = ABuf::new(post, 1, 0x22);
+                ((q("cap", &mut c2), q("full", &mut c2), q("empty", &mut c2)), (q("rcap", &mut c2), q("rfull", &mut c2), q("rempty", &mut c2)))
+            });
+            match flags {
+                Ok((mu, ro)) => {
+                    if mu != ro {
+                        f.push(Finding { property: "C04", what: format!("after `{}` the mutable view answers (capacity, is_full, is_empty) = {:?} but the read-only view of the same bytes answers {:?}", op.text(), mu, ro) });
+                    }
+                }
+                Err(_) => f.push(Finding { property: "C04", what: format!("after `{}` capacity/is_full/is_empty panics on one of the views", op.text()) }),
+            }
             match viaw {
                 Ok((m2, l2)) => {
                     if m2 != q || l2 != qsize.to_string() {
